@@ -35,6 +35,16 @@ def main():
         e = json.load(open(f))
         c = e["coverage"]
         rows2.append(f"| {pid} | {c['evaluations']} | {c['distinct_nontrivial']} | {c['traces_validated_against_impl']} | {c['states']} | {len(c['tlc_runs'])} | {e['wall_s']:.0f} s ({e['tier']}) | {'yes' if c.get('exhaustive') else 'parts'} |")
+    rows3 = ["| refactor | what changed | checks run (quick tier) | outcome |", "|---|---|---|---|"]
+    for f in sorted(glob.glob(os.path.join(VERIF, "refactors", "*", "meta.json"))):
+        m = json.load(open(f))
+        runs = m.get("results_first_run", [])
+        bad = [r for r in runs if r["exit"] != 0]
+        out = "all silent" if not bad else ("first run: " + ", ".join(f"{r['check']} exit {r['exit']}" for r in bad) + "; false alarms fixed, silent afterwards")
+        rows3.append(f"| {m['id']} | {m['what']} | {', '.join(r['check'] for r in runs)} | {out} |")
+    a3, b3 = "<!-- REFTABLE-BEGIN -->", "<!-- REFTABLE-END -->"
+    if a3 in s:
+        s = s[: s.index(a3) + len(a3)] + "\n" + "\n".join(rows3) + "\n" + s[s.index(b3):]
     a2, b2 = "<!-- RESTABLE-BEGIN -->", "<!-- RESTABLE-END -->"
     if a2 in s:
         s = s[: s.index(a2) + len(a2)] + "\n" + "\n".join(rows2) + "\n" + s[s.index(b2):]
